@@ -288,6 +288,9 @@ impl Run {
             Ev::Restart => "restart",
             Ev::ReissueGenesis => "reissue-genesis",
         };
+        if std::env::var("VERIF_DEBUG").is_ok() {
+            eprintln!("step {} chain epoch {} state {state_before}: {ev:?}", self.step, self.chain_epoch);
+        }
         self.state_event_pairs.insert(format!("{state_before}/{kind}"));
         mon.count(&format!("event:{kind}"));
         let mut entry = json!({"step": self.step, "event": format!("{ev:?}"), "state_before": state_before});
@@ -336,13 +339,18 @@ impl Run {
                         Ok(_) => true,
                         Err(e) => format!("{e:?}").contains("ExistingSigner"),
                     };
-                    if ok && *label_offset == 0 {
-                        // registered during chain epoch e => signs at e + 2
-                        self.model.signing_set.entry(self.chain_epoch + 2).or_default().insert(i);
+                    if ok {
+                        // An acknowledged registration counts for the round it NAMES: label L is the
+                        // recording epoch of the round, i.e. the registration was made for chain epoch
+                        // L - 1 and its key signs at (L - 1) + 2 = L + 1. With the honest label this is
+                        // chain epoch + 2. A label other than the honest one is acknowledged by a
+                        // correct aggregator only while that round is still the open one (the chain
+                        // has moved to the next epoch, the aggregator has not opened the new round
+                        // yet): it then belongs to that round. An aggregator that files it under
+                        // another round disagrees with this model and M3 judges the key.
+                        self.model.signing_set.entry(*reg_epoch + 1).or_default().insert(i);
                     }
                     if ok && *label_offset != 0 {
-                        // a registration labelled for another round is not a registration for the
-                        // open round: the model does not count it (M3 then judges the key)
                         mon.count("diag:registration_with_wrong_round_label_acknowledged");
                     }
                     acks.push(json!({"signer": i, "ack": ok, "err": r.err().map(|e| format!("{e:?}").chars().take(120).collect::<String>())}));
@@ -372,7 +380,20 @@ impl Run {
                 self.sim.restart().await?;
             }
             Ev::ReissueGenesis => {
-                self.sim.reissue_genesis(&self.fixture).await?;
+                // `init_state_from_fixture_for_genesis` is a test helper of the aggregator crate, not
+                // the operator's genesis command: called for an epoch the aggregator never observed
+                // (several epoch changes in a blocked state without a tick) its inserts violate a
+                // foreign key and panic inside mithril-persistence, which also poisons the connection
+                // mutex. That is a limit of the harness's shortcut: the history ends there, discarded.
+                use futures::FutureExt;
+                let r = std::panic::AssertUnwindSafe(self.sim.reissue_genesis(&self.fixture)).catch_unwind().await;
+                match r {
+                    Ok(r) => r?,
+                    Err(_) => {
+                        mon.count("harness:genesis_helper_panicked_history_discarded");
+                        anyhow::bail!("the genesis test helper panicked (epoch never observed by the aggregator)");
+                    }
+                }
                 let all: BTreeSet<usize> = (0..self.n_signers()).collect();
                 self.model.signing_set.insert(self.chain_epoch, all.clone());
                 self.model.signing_set.insert(self.chain_epoch + 1, all);
